@@ -23,6 +23,11 @@ impl Layout {
     pub open spec fn valid(&self) -> bool {
         is_pow2(self.align_) && self.size_ as int + self.align_ as int - 1 <= isize::MAX as int
     }
+    /// unsafe: the caller promises a valid layout
+    pub fn from_size_align_unchecked(size: usize, align: usize) -> (r: Layout)
+        requires is_pow2(align) && size as int + align as int - 1 <= isize::MAX as int,   // @ob C09,C19 from_size_align_unchecked.layout_is_valid
+        ensures r == (Layout { size_: size, align_: align })
+    { Layout { size_: size, align_: align } }
     pub fn size(&self) -> (r: usize) ensures r == self.size_ { self.size_ }
     pub fn align(&self) -> (r: usize) ensures r == self.align_ { self.align_ }
     #[verifier::external_body]
@@ -56,12 +61,12 @@ pub fn opt_expect<T>(o: Option<T>) -> (r: T) ensures o == Some(r) { o.unwrap() }
 /// core::hint::unreachable_unchecked(): UB if reached => obligation `false`
 #[verifier::external_body]
 pub fn unreachable_unchecked<T>() -> T
-    requires false,   // @ob C09,C01 unreachable_unchecked.unreachable
+    requires false,   // @ob C09,C01,C02 unreachable_unchecked.unreachable
 { unreachable!() }
 
 // ---- pointers as addresses (R1/R2/R7) ------------------------------------------------------
 pub fn ptr_add(p: usize, n: usize) -> (r: usize)
-    requires p + n <= usize::MAX,   // @ob C01,C09,C19 ptr_add.no_wrap
+    requires p + n <= usize::MAX,   // @ob C01,C09,C19,C02 ptr_add.no_wrap
     ensures r == p + n
 { p + n }
 pub fn umax_exec(a: usize, b: usize) -> (r: usize) ensures r == umax(a, b) { if a >= b { a } else { b } }
@@ -70,7 +75,7 @@ pub fn nonnull_new(p: usize) -> (r: Option<usize>)
     ensures r == (if p == 0 { None::<usize> } else { Some(p) })
 { if p == 0 { None } else { Some(p) } }
 pub fn ptr_offset_from(a: usize, b: usize) -> (r: usize)
-    requires b <= a, a - b <= isize::MAX as usize,   // @ob C10,C01 offset_from.in_same_block
+    requires b <= a, a - b <= isize::MAX as usize,   // @ob C10,C01,C02 offset_from.in_same_block
     ensures r == a - b
 { a - b }
 /// ptr::copy_nonoverlapping(src, dst, n): std's safety condition on the two address ranges
